@@ -586,6 +586,41 @@ func c17Calls() []c17Call {
 		return nil
 	})
 	// ---- listings are built for the caller
+	// the lists an engine-level Find hands back (with and without filter, sort, window) are the caller's
+	add("Transaction.Find: result lists (read only)", func() []interface{} { return nil }, func(w *world.World, a []interface{}) []interface{} {
+		txn, err := w.Engine.Begin(w.Ctx, false)
+		if err != nil {
+			panic(err)
+		}
+		h := lungo.Handle{"d", "c"}
+		var out []interface{}
+		for _, q := range []struct {
+			query, sort bson.D
+			skip, limit int
+		}{{bD(), nil, 0, 0}, {bD(), nil, 1, 2}, {bD(), nil, 0, 1}, {bD("_id", bD("$gte", i(0))), nil, 0, 0}, {bD(), bD("_id", i(-1)), 0, 0}} {
+			query := q.query
+			var sort *bson.D
+			if q.sort != nil {
+				srt := q.sort
+				sort = &srt
+			}
+			res, err := txn.Find(h, &query, sort, q.skip, q.limit)
+			if err != nil {
+				panic(err)
+			}
+			// the list itself is the caller's (reorder, overwrite, append); the documents in it are stored documents
+			// and belong to the engine at this level
+			list := res.Matched
+			for k := 0; k+1 < len(list); k += 2 {
+				list[k], list[k+1] = list[k+1], list[k]
+			}
+			extra := bD("_id", "appended-by-caller")
+			list = append(list, &extra)
+			_ = list
+			out = append(out, len(res.Matched))
+		}
+		return out
+	})
 	add("Transaction.ListIndexes / ListCollections / ListDatabases + Index.Config (read only)", func() []interface{} { return nil }, func(w *world.World, a []interface{}) []interface{} {
 		txn, err := w.Engine.Begin(w.Ctx, false)
 		if err != nil {
